@@ -14,7 +14,7 @@ def columns_vs_core(tier, seed):
     columns, models, query, st = _import_cqlengine()
     from cassandra import cqltypes, util
     rng = random.Random(seed)
-    fails, n = [], 0
+    fails, n, seen = [], 0, set()
     N = 400 if tier == 'quick' else 5000
     epoch = datetime.datetime(1970, 1, 1)
     try:
@@ -62,6 +62,7 @@ def columns_vs_core(tier, seed):
         col.column_name = 'c'
         for v in values:
             n += 1
+            seen.add((type(col).__name__, repr(v)))
             try:
                 via = ctype.serialize(col.to_database(v), 4)
                 direct = ctype.serialize(v, 4)
@@ -72,8 +73,8 @@ def columns_vs_core(tier, seed):
                 fails.append('%s value %r: cqlengine stores %r, the core driver encodes %r' % (type(col).__name__, v, via, direct))
         if len(fails) > 3:
             break
-    return {'name': 'columns-versus-core-serializers', 'kind': 'bounded', 'cases': n, 'evaluations': n, 'distinct_nontrivial': n,
-            'rule': 'coretype.serialize(column.to_database(v)) == coretype.serialize(v) for 22 column types',
+    return {'name': 'columns-versus-core-serializers', 'kind': 'bounded', 'cases': n, 'evaluations': n, 'distinct_nontrivial': len(seen), 'samples': [list(x) for x in sorted(seen)[:3]],
+            'rule': 'distinct = distinct (column type, value) pairs; coretype.serialize(column.to_database(v)) == coretype.serialize(v) for 22 column types',
             'bound': '%d values in total: boundary values plus %d random values per numeric / temporal type; datetimes over years 1..9999, naive and in 6 zones' % (n, N), 'violations': fails[:3]}
 
 
